@@ -183,6 +183,8 @@ func socketPair() (net.Conn, net.Conn, error) {
 	return c0, c1, nil
 }
 
+var waitRelease = make(chan struct{}, 64)
+
 // handler used by "herr" endings and by registered test interfaces
 type plainIface struct {
 	name string
@@ -195,6 +197,14 @@ func (d *plainIface) VarlinkDispatch(ctx context.Context, call varlink.Call, met
 	switch methodname {
 	case "Fail":
 		return errors.New("scripted handler failure")
+	case "Wait":
+		// park until the harness releases it (or the connection's context ends), then answer
+		select {
+		case <-waitRelease:
+		case <-ctx.Done():
+		case <-time.After(20 * time.Millisecond):
+		}
+		return call.Reply(ctx, map[string]string{"m": methodname})
 	case "Block":
 		// park until the connection's context is cancelled or the peer goes away
 		_, err := call.Conn.ReadBytes(ctx, 0)
@@ -387,6 +397,13 @@ func (r *svcRunner) do(op sOp) {
 			r.descs[op.I] = desc
 		}
 		r.log.Ev("RegisterEnd", tr.M{"i": op.I, "res": res})
+	case "Probe":
+		// one well-behaved client: connect, get accepted, introspect through the client helpers, close
+		r.do(sOp{Op: "Connect", C: op.C})
+		r.settle()
+		r.do(sOp{Op: "Deliver", C: op.C})
+		r.settle()
+		r.do(sOp{Op: "End", C: op.C, How: "introspect"})
 	case "End":
 		c := r.clients[op.C]
 		if c == nil || c.state != "delivered" {
@@ -459,16 +476,17 @@ func (r *svcRunner) introspect(c *svcClient) {
 		descs = append(descs, tok)
 	}
 	ev["descs"] = descs
-	// names that are not listed must be refused with InvalidParameter("interface")
-	unlisted := true
-	for _, n := range []string{"no.such", "i9", "", "org.varlink.servic", "I1"} {
+	// names that are not listed must be refused with InvalidParameter("interface"):
+	// "described" = the candidates for which something else came back
+	described := []string{}
+	for _, n := range []string{"i1", "i2", "i3", "no.such", "", "org.varlink.servic", "I1", "t.e."} {
 		_, err := conn.GetInterfaceDescription(ctx, n)
 		var ip *varlink.InvalidParameter
 		if !errors.As(err, &ip) || ip.Parameter != "interface" {
-			unlisted = false
+			described = append(described, n)
 		}
 	}
-	ev["unlisted_ok"] = unlisted
+	ev["described"] = described
 	r.log.Ev("Introspect", ev)
 }
 
